@@ -906,6 +906,13 @@ impl ActTask for Arc<Task> {
                 NodeContent::Act(act) => act.init(ctx)?,
             }
 
+            // a branch that went pending (else / needs) may already be decidable:
+            // the siblings it waits for can have finished before it was initialised,
+            // and nobody would look at it again
+            if self.state().is_pending() && self.is_ready() {
+                self.set_state(TaskState::Running);
+            }
+
             if !self.state().is_completed() {
                 ctx.emit_task(&ctx.task())?;
             }
